@@ -73,12 +73,31 @@ Unsupported(K, e) == \E a \in QAtoms(e) :
     \* parts of a timestamp, in a target language that has no way to address them
     \/ (~K.ts /\ (a.k = "ts" \/ (a.k = "cmp" /\ a.x[Len(a.x)] # 47)))
 
+\* ---- recorded deviation: deferred query parts outside a conjunction ----------------------
+\* A backend that defers a predicate (K.defer: regular expressions on fields) gets it out of the place where it stands
+\* and appends it as a filter on the result: right for a predicate all of whose ancestors are ANDs (a NOT directly above
+\* it is carried along), wrong below an OR or below a negated group - the OR loses an alternative and the filter
+\* applies to everything (tests/test_conversion_deferred.py::test_deferred_conversion_or pins that).  Input class:
+\* some deferred predicate of the rule is not in such a conjunctive position.
+Deferred(K, a) == K.defer /\ a.k = "re" /\ a.f # <<>>
+RECURSIVE OutsideConjunction(_, _, _)
+OutsideConjunction(K, e, conj) ==
+    CASE e.k = "leaf" -> Deferred(K, e.a) /\ ~conj
+      [] e.k = "not" -> OutsideConjunction(K, e.a, conj /\ e.a.k = "leaf")
+      [] e.k = "and" -> \E j \in 1..Len(e.args) : OutsideConjunction(K, e.args[j], conj)
+      [] OTHER -> \E j \in 1..Len(e.args) : OutsideConjunction(K, e.args[j], conj /\ Len(e.args) = 1)
+
 QueryClause(K, want, text, shared) ==
     LET got == ParseQuery(text, K.prec) IN
     IF ~got.ok THEN C("QueryUnreadable")
     ELSE LET g == got.e IN
     IF ~AnyRaw(g) /\ QEquiv(want, g) THEN C("")
     ELSE IF AnyRaw(g) /\ QEquiv(want, Unmark(g)) THEN D("Dev_NativeCidrRawField")
+    ELSE IF OutsideConjunction(K, want, TRUE) /\ QAtoms(want) = {Plain(a) : a \in QAtoms(g)} THEN D("Dev_DeferredOutsideConjunction")
+    \* in not-equals mode a NOT directly over a deferred predicate negates it twice: once through the negated template the
+    \* value is rendered with, once more through the negation flag of the deferred part
+    ELSE IF K.noteq /\ (\E a \in NotOperands(want) : a.k = "leaf" /\ Deferred(K, a.a)) /\ QAtoms(want) = {Plain(a) : a \in QAtoms(g)}
+         THEN D("Dev_NotEqDeferredNegatedTwice")
     ELSE IF NotEqTrap(K, want) /\ QAtoms(want) = {Plain(a) : a \in QAtoms(g)} THEN D("Dev_NotEqDropsNegation")
     ELSE IF K.noteq /\ shared /\ QAtoms(want) = {Plain(a) : a \in QAtoms(g)} THEN D("Dev_NotEqSharedDetectionParent")
     ELSE C("Equiv")
